@@ -516,8 +516,6 @@ func runRetryCase(prop string, mon monFn) func(c fw.Case, env *fw.Env) fw.Result
 			}
 			r.Counters["client:"+sc.Client]++
 			if len(f) > 0 {
-				one := fw.Case{Name: c.Name, Idx: c.Idx}
-				_ = one
 				r.Verdict = fw.Violated
 				r.Sig = f[0].Sig
 				r.Detail = fmt.Sprintf("%s\nclient=%s workload=%s cfg=%s faults=%v dial_fail=%v steer=%s/%d %v\nfired: %s", f[0].Detail, sc.Client, p.W, cfgName(sc.Cfg, sc.AlwaysResub, sc.Chunk, sc.LateWriteOK), sc.Faults, sc.DialFail, sc.SteerAt, sc.SteerConn, sc.SteerSteps, a.FaultShape())
@@ -529,6 +527,10 @@ func runRetryCase(prop string, mon monFn) func(c fw.Case, env *fw.Env) fw.Result
 				}
 				r.Trace = a.Tail(120)
 				r.Sample = sc
+				single := p
+				single.Mode, single.One = "one", &sc
+				rc := fw.Mk(c.Name+" (single scenario)", single)
+				r.ReplayCase = &rc
 				return r
 			}
 			if env.Replay {
